@@ -48,6 +48,21 @@ def run(snap, tier, seed, t0, replay):
     for k in range(nconf):
         variant = "identity" if k == 0 else None
         params = confgen.gen_params(rng, variant)
+        if k >= 1:
+            # stratification: every run covers the features the family is about, whatever the seed
+            params["mapping_style"] = ["swap", "demo", "identity"][k % 3]
+            if k % 2:
+                params["keys"]["ext"] = ["format", "suffix"][(k // 2) % 2]
+            if k % 4 == 1:
+                params["third_config"], params["third_config_own_mapping"] = True, True
+            if k % 4 == 3:
+                params["third_config"], params["third_config_narrow"] = True, True
+            if k % 3 == 2:
+                params["default_config"] = "server"
+            if k % 5 == 2:
+                params["twin_basetype"] = True
+            if k % 5 == 4:
+                params["third_basetype"] = True
         params_list.append(params)
         for sub, sa in SUBS.items():
             d = os.path.join(snap.root, "genconf_%d_%s" % (k, sub))
